@@ -79,6 +79,30 @@ theorem c17_late_lock_spoils_live_directory (d : Dir) (b : Bytes) (hm : d.marker
   · simp [openDbLateLock, hm, hv, Dir.locked, hl]
   · simp [openDb, hm, hv, Dir.locked, hl]
 
+/-- **The lock outlives the instance's last journal I/O**: while the last handle is being dropped, an
+    open that succeeds finds nothing pending – the journal was written and synced before the lock
+    went. -/
+theorem c17_open_during_drop_sees_synced_journal (d : Dir) (hh : d.holders = 1) (s : Dir)
+    (hs : s ∈ dropLastStates false d) (hok : (openDb s).2 = .ok ()) : s.pendingJournal = false := by
+  simp only [dropLastStates, Bool.false_eq_true, if_false, List.mem_cons, List.mem_nil_iff, or_false] at hs
+  rcases hs with hs | hs <;> subst hs <;> rfl
+
+/-- moreover the first of those states still refuses the open -/
+theorem c17_open_during_flush_refused (d : Dir) (hh : d.holders = 1) :
+    ∃ e, (openDb { d with pendingJournal := false, mutations := d.mutations + 1 }).2 = .error e ∧
+      { d with pendingJournal := false, mutations := d.mutations + 1 } ∈ dropLastStates false d := by
+  obtain ⟨e, he, _⟩ := c17_locked_refuses { d with pendingJournal := false, mutations := d.mutations + 1 } (by simp [hh])
+  exact ⟨e, he, by simp [dropLastStates]⟩
+
+/-- with the lock released first (seeded change C17-9) an open succeeds while acknowledged journal bytes
+    of the first instance are still pending -/
+theorem c17_lock_released_before_sync_counterexample :
+    let d : Dir := { marker := some (markerMagic ++ [3]), hasJournal0 := true, hasKeyspaces := true,
+                     mutations := 0, holders := 1, pendingJournal := true }
+    ∃ s ∈ dropLastStates true d, (openDb s).2 = .ok () ∧ s.pendingJournal = true := by
+  refine ⟨_, List.mem_cons_self, ?_, rfl⟩
+  rfl
+
 /-- **The lock is held exactly while a handle is alive**, over every sequence of
     open / clone / drop: `holders` is the number of live handles, never negative, and an open
     succeeds only from `holders = 0`. -/
@@ -126,6 +150,6 @@ theorem c17_marker_absent_refused (d : Dir) (hm : d.marker = none) (hk : d.hasKe
 example : checkVersion [0x46, 0x4A, 0x4C, 3, 9, 9] = .ok () := rfl
 example : checkVersion [0x46, 0x4A, 0x4C, 2] = .error (.invalidVersion (some .v2)) := rfl
 example : ∃ d : Dir, d.holders > 0 ∧ d.marker = some [0x46, 0x4A, 0x4C, 3] :=
-  ⟨⟨some [0x46, 0x4A, 0x4C, 3], true, true, 3, 2⟩, by decide, rfl⟩
+  ⟨⟨some [0x46, 0x4A, 0x4C, 3], true, true, 3, 2, false⟩, by decide, rfl⟩
 
 end Fjall.Version
